@@ -142,6 +142,12 @@ class JsonDocument(HierDictDocument):
             raise ValidationError(value)
         if value in (True, False):
             return int(value)
+        if isinstance(value, float) and issubclass(cls, Integer):
+            # 2.0 and 2 are the same number on the wire: hand over an int, and
+            # nothing that is not an integer.
+            if not value.is_integer():
+                raise ValidationError(value)
+            return int(value)
         return value
 
     def _ret_bool(self, cls, value):
